@@ -3,7 +3,7 @@
 from __future__ import annotations
 
 import ast
-from typing import Dict, List, Set
+from typing import Dict, List, Optional, Set
 
 from ..core import astq
 from ..core.program import AnalysisError, Program, ancestors, norm, short, walk_function
@@ -27,26 +27,55 @@ TRUSTED = c09.TRUSTED
 PG = "sleap_nn.inference.paf_grouping"
 
 
-def parallel_filter(res: Result, fi, mask_def: ast.Assign, group: List[str], rule: str, before_uses: bool = True) -> None:
-    """Every array of `group` must be re-bound / indexed with the same mask."""
-    mask = mask_def.targets[0].id
+def _mask_of(fn: ast.AST, e: ast.AST) -> Optional[ast.Compare]:
+    """The comparison a mask expression denotes: the comparison itself, a name bound once to it, or the loop /
+    comprehension variable of an iteration over a list whose elements are that comparison."""
+    if isinstance(e, ast.Compare):
+        return e
+    if not isinstance(e, ast.Name):
+        return None
+    defs = [s_ for s_ in astq.assignments_to(fn, e.id) if isinstance(s_, ast.Assign)]
+    if len(defs) == 1 and isinstance(defs[0].value, ast.Compare):
+        return defs[0].value
+    # iteration variable over a list of masks
+    for n in ast.walk(fn):
+        it = None
+        if isinstance(n, ast.comprehension) and isinstance(n.target, ast.Name) and n.target.id == e.id:
+            it = n.iter
+        elif isinstance(n, ast.For) and isinstance(n.target, ast.Name) and n.target.id == e.id:
+            it = n.iter
+        if isinstance(it, ast.Name):
+            ld = [s_ for s_ in astq.assignments_to(fn, it.id) if isinstance(s_, ast.Assign)]
+            if len(ld) == 1 and isinstance(ld[0].value, ast.ListComp) and isinstance(ld[0].value.elt, ast.Compare):
+                return ld[0].value.elt
+    return None
+
+
+def _all_masks(fn: ast.AST) -> List[ast.Compare]:
+    out = []
+    for st in walk_function(fn):
+        if isinstance(st, ast.Assign) and isinstance(st.value, ast.Compare):
+            out.append(st.value)
+        elif isinstance(st, ast.Assign) and isinstance(st.value, ast.ListComp) and isinstance(st.value.elt, ast.Compare):
+            out.append(st.value.elt)
+    return out
+
+
+def parallel_filter(res: Result, fi, mask: ast.Compare, group: List[str], rule: str, before_uses: bool = True) -> None:
+    """Every array of `group` must be indexed with the same mask (however the mask is named or passed around)."""
     filtered: Dict[str, ast.AST] = {}
-    for st in walk_function(fi.node):
-        if isinstance(st, ast.Assign) and isinstance(st.value, ast.Subscript) and isinstance(st.value.value, ast.Name) \
-                and isinstance(st.value.slice, ast.Name) and st.value.slice.id == mask:
-            filtered[st.value.value.id] = st
-    for n in walk_function(fi.node):  # also uses inside expressions: peaks.append(peaks_sample[in_channel])
-        if isinstance(n, ast.Subscript) and isinstance(n.value, ast.Name) and isinstance(n.slice, ast.Name) and n.slice.id == mask:
+    for n in walk_function(fi.node):
+        if isinstance(n, ast.Subscript) and isinstance(n.value, ast.Name) and _mask_of(fi.node, n.slice) is mask:
             filtered.setdefault(n.value.id, n)
     for g in group:
-        res.ob(rule, g in filtered, fi.qualname, f"{g}[{mask}]",
-               f"`{g}` is not filtered with `{mask}` although its sibling arrays are: the parallel arrays go out of step "
-               "(connections pair the wrong peaks / scores)", f"{fi.module.relpath}:{mask_def.lineno}",
-               sample={"mask": short(mask_def, 80), "group": group})
+        res.ob(rule, g in filtered, fi.qualname, f"{g}[{short(mask, 40)}]",
+               f"`{g}` is not filtered with `{short(mask, 50)}` although its sibling arrays are: the parallel arrays go out of step "
+               "(connections pair the wrong peaks / scores)", f"{fi.module.relpath}:{mask.lineno}",
+               sample={"mask": short(mask, 80), "group": group})
     extra = set(filtered) - set(group)
     for g in sorted(extra):
-        res.ob(rule, False, fi.qualname, f"{g}[{mask}]", f"`{g}` is filtered with `{mask}` but is not one of the parallel arrays {group}",
-               f"{fi.module.relpath}:{mask_def.lineno}")
+        res.ob(rule, False, fi.qualname, f"{g}[{short(mask, 40)}]", f"`{g}` is filtered with `{short(mask, 50)}` but is not one of the parallel arrays {group}",
+               f"{fi.module.relpath}:{mask.lineno}")
 
 
 def check_filter(prog: Program, res: Result) -> None:
@@ -55,37 +84,45 @@ def check_filter(prog: Program, res: Result) -> None:
     R = "C08-filter"
     group = [p for p in fi.params if p.startswith("match_")]
     res.ob(R, len(group) == 4, fi.qualname, "four parallel match arrays", f"{len(group)} match_* parameters", fi.where)
-    masks = {}
-    for st in walk_function(fi.node):
-        if isinstance(st, ast.Assign) and isinstance(st.targets[0], ast.Name) and isinstance(st.value, ast.Compare):
-            masks[st.targets[0].id] = st
+    masks = _all_masks(fi.node)
     # 1. validity mask
-    vm = [st for st in masks.values() if "min_line_scores" in norm(st.value)]
+    vm = [c for c in masks if "min_line_scores" in norm(c)]
     res.ob(R, len(vm) == 1, fi.qualname, "one min_line_scores mask", f"{len(vm)} masks built from min_line_scores", fi.where)
-    for st in vm:
-        c = st.value
+    for c in vm:
         ok = len(c.ops) == 1 and ((isinstance(c.ops[0], (ast.GtE, ast.Gt)) and norm(c.left) == "match_line_scores_sample" and norm(c.comparators[0]) == "min_line_scores")
                                   or (isinstance(c.ops[0], (ast.LtE, ast.Lt)) and norm(c.comparators[0]) == "match_line_scores_sample" and norm(c.left) == "min_line_scores"))
         res.ob(R, ok, fi.qualname, f"mask keeps scores at or above the minimum: {short(c, 60)}",
-               f"the validity mask is `{short(c, 60)}`: matches scoring below min_line_scores are not the ones removed", f"{fi.module.relpath}:{st.lineno}")
-        parallel_filter(res, fi, st, group, R)
+               f"the validity mask is `{short(c, 60)}`: matches scoring below min_line_scores are not the ones removed", f"{fi.module.relpath}:{c.lineno}")
+        parallel_filter(res, fi, c, group, R)
         # the re-binding happens before the connection loop
-        loops = [n for n in walk_function(fi.node) if isinstance(n, ast.For) and norm(n.iter) == "sorted_edge_inds"]
+        loops = [n for n in walk_function(fi.node) if isinstance(n, ast.For) and "sorted_edge_inds" in norm(n.iter)]
         for g in group:
-            rb = [s for s in walk_function(fi.node) if isinstance(s, ast.Assign) and norm(s.targets[0]) == g and isinstance(s.value, ast.Subscript)
-                  and norm(s.value.slice) == st.targets[0].id]
-            ok = bool(rb) and all(not astq.enclosing_loops(s) for s in rb) and (not loops or all(s.lineno < loops[0].lineno for s in rb))
+            rb = [s_ for s_ in walk_function(fi.node) if isinstance(s_, ast.Assign) and norm(s_.targets[0]) == g and isinstance(s_.value, ast.Subscript)
+                  and _mask_of(fi.node, s_.value.slice) is c]
+            ok = bool(rb) and all(not astq.enclosing_loops(s_) for s_ in rb) and (not loops or all(s_.lineno < loops[0].lineno for s_ in rb))
             res.ob(R, ok, fi.qualname, f"{g} re-bound to its filtered version before the edge loop",
                    f"`{g}` is not replaced by its filtered version before connections are built", fi.where)
     # 2. per-edge mask
-    em = [st for st in masks.values() if "match_edge_inds_sample" in norm(st.value)]
-    for st in em:
-        parallel_filter(res, fi, st, [g for g in group if g != "match_edge_inds_sample"], R)
+    em = [c for c in masks if "match_edge_inds_sample" in norm(c)]
+    for c in em:
+        parallel_filter(res, fi, c, [g for g in group if g != "match_edge_inds_sample"], R)
     res.ob(R, len(em) == 1, fi.qualname, "one per-edge mask", f"{len(em)} per-edge masks", fi.where)
     # 3. per-node mask
-    nm = [st for st in masks.values() if "peak_channel_inds_sample" in norm(st.value)]
-    for st in nm:
-        parallel_filter(res, fi, st, ["peaks_sample", "peak_scores_sample"], R)
+    nm = [c for c in masks if "peak_channel_inds_sample" in norm(c)]
+    for c in nm:
+        parallel_filter(res, fi, c, ["peaks_sample", "peak_scores_sample"], R)
+        # the mask selects node type i for i over all node types
+        ok = len(c.ops) == 1 and isinstance(c.ops[0], ast.Eq) and "peak_channel_inds_sample" in (norm(c.left), norm(c.comparators[0]))
+        other = c.comparators[0] if norm(c.left) == "peak_channel_inds_sample" else c.left
+        gens = [a for a in ancestors(c) if isinstance(a, (ast.For, ast.ListComp))]
+        it = None
+        for a in gens:
+            if isinstance(a, ast.For) and norm(a.target) == norm(other):
+                it = a.iter
+            elif isinstance(a, ast.ListComp) and norm(a.generators[0].target) == norm(other):
+                it = a.generators[0].iter
+        res.ob(R, ok and it is not None and norm(it) == "range(n_nodes)", fi.qualname, "one mask per node type 0..n_nodes-1",
+               f"the per-node mask `{short(c, 50)}` does not range over range(n_nodes)", f"{fi.module.relpath}:{c.lineno}")
     res.ob(R, len(nm) == 1, fi.qualname, "one per-node mask", f"{len(nm)} per-node masks", fi.where)
     # 4. EdgeConnection(src, dst, score) from zip(src, dst, scores)
     ecs = [n for n in walk_function(fi.node) if isinstance(n, ast.Call) and norm(n.func) == "EdgeConnection"]
@@ -201,6 +238,10 @@ VARIANTS = [
     Variant("filter-strictly-below", F, "    is_valid_match = match_line_scores_sample >= min_line_scores", "    is_valid_match = match_line_scores_sample <= min_line_scores", "C08-filter"),
     Variant("edge-mask-missed", F, "        line_scores = match_line_scores_sample[in_edge]\n", "        line_scores = match_line_scores_sample\n", "C08-filter"),
     Variant("conn-swapped", F, "            EdgeConnection(src, dst, score)\n", "            EdgeConnection(dst, src, score)\n", "C08-filter"),
+    Variant("bp-node-mask-comprehension", F, "    peaks = []\n    peak_scores = []\n    for i in range(n_nodes):\n        in_channel = peak_channel_inds_sample == i\n        peaks.append(peaks_sample[in_channel])\n        peak_scores.append(peak_scores_sample[in_channel])",
+            "    channel_masks = [peak_channel_inds_sample == i for i in range(n_nodes)]\n    peaks = [peaks_sample[in_channel] for in_channel in channel_masks]\n    peak_scores = [peak_scores_sample[in_channel] for in_channel in channel_masks]", None),
+    Variant("node-mask-comprehension-scores-unmasked", F, "    peaks = []\n    peak_scores = []\n    for i in range(n_nodes):\n        in_channel = peak_channel_inds_sample == i\n        peaks.append(peaks_sample[in_channel])\n        peak_scores.append(peak_scores_sample[in_channel])",
+            "    channel_masks = [peak_channel_inds_sample == i for i in range(n_nodes)]\n    peaks = [peaks_sample[in_channel] for in_channel in channel_masks]\n    peak_scores = [peak_scores_sample for in_channel in channel_masks]", "C08-filter"),
     Variant("node-mask-missed", F, "        peak_scores.append(peak_scores_sample[in_channel])", "        peak_scores.append(peak_scores_sample)", "C08-filter"),
     Variant("minpeaks-fraction-by-value", F, "        if isinstance(min_instance_peaks, float):", "        if min_instance_peaks <= 1:", "C08-minpeaks"),
     Variant("minpeaks-strict", F, "            if instance_peak_counts[instance] >= min_instance_peaks", "            if instance_peak_counts[instance] > min_instance_peaks", "C08-minpeaks"),
